@@ -100,12 +100,19 @@ def isolated(fn, *args, timeout=300):
     import signal
     import traceback
 
+    timeout = float(os.environ.get("VERIF_ISOLATE_TIMEOUT", timeout))
     r, w = os.pipe()
     pid = os.fork()
     if pid == 0:
         code = 0
         try:
             os.close(r)
+            # a run that hangs says where, shortly before the parent gives up on it (an alarm,
+            # not faulthandler's watchdog thread: its state does not survive a fork)
+            import faulthandler
+
+            signal.signal(signal.SIGALRM, lambda *_: faulthandler.dump_traceback(all_threads=True))
+            signal.alarm(int(max(timeout - 15, 5)))
             try:
                 data = pickle.dumps(("ok", fn(*args)))
             except BaseException:
